@@ -16,11 +16,14 @@ Local Open Scope nat_scope.
 Definition nveh (inp : input) := length (in_vehicles inp).
 Definition nunits (inp : input) := length (in_units inp).
 
-(* input well-formedness: every input stop belongs to exactly one unit *)
+(* input well-formedness: every input stop belongs to exactly one unit; the
+   members of the duration groups are input stops (never a vehicle's first or
+   last stop) *)
 Definition wf_input (inp : input) : Prop :=
   NoDup (concat (map iu_stops (in_units inp))) /\
   (forall x, In x (concat (map iu_stops (in_units inp))) <-> (x < nstops inp)%nat) /\
-  (forall u, In u (in_units inp) -> iu_stops u <> []).
+  (forall u, In u (in_units inp) -> iu_stops u <> []) /\
+  Forall (fun g => Forall (fun x => (x < nstops inp)%nat) (fst g)) (in_dgroups inp).
 
 Definition route_shape (inp : input) (v : nat) (stops : list nat) : Prop :=
   exists mid, stops = first_stop inp v :: mid ++ [last_stop inp v] /\
@@ -345,7 +348,7 @@ Qed.
 
 Lemma unit_stops_nonempty (inp : input) (u : nat) :
   wf_input inp -> u < nunits inp -> iu_stops (get_unit inp u) <> [].
-Proof. intros (_ & _ & Hne) Hu. apply Hne. apply get_unit_In. exact Hu. Qed.
+Proof. intros (_ & _ & Hne & _) Hu. apply Hne. apply get_unit_In. exact Hu. Qed.
 
 Lemma unit_stops_NoDup (inp : input) (u : nat) :
   wf_input inp -> u < nunits inp -> NoDup (iu_stops (get_unit inp u)).
@@ -359,6 +362,33 @@ Lemma units_disjoint (inp : input) (u u' x : nat) :
 Proof.
   intros (Hnd & _ & _) Hu Hu' Hne Hx Hx'. unfold get_unit in *.
   exact (NoDup_concat_nth iu_stops (mkIUnit [] []) (in_units inp) u u' x Hnd Hu Hu' Hne Hx Hx').
+Qed.
+
+(* a vehicle's first / last stop is in no duration group: it pays no group
+   duration (but an input stop visited right after it does) *)
+Lemma dgroup_find_not_input (n x : nat) (gs : list (list nat * Z)) :
+  Forall (fun g => Forall (fun y => y < n) (fst g)) gs -> n <= x ->
+  forall i, dgroup_find gs i x = None.
+Proof.
+  intros H Hx. induction H as [|[ss d] gs Hg _ IH]; intros i; cbn [dgroup_find]; [reflexivity|].
+  cbn [fst] in Hg. destruct (existsb (Nat.eqb x) ss) eqn:E; [|apply IH].
+  apply existsb_exists in E. destruct E as (y & Hy & E). apply Nat.eqb_eq in E. subst y.
+  rewrite Forall_forall in Hg. specialize (Hg x Hy). lia.
+Qed.
+
+Lemma dgroup_of_not_input (inp : input) (x : nat) :
+  wf_input inp -> nstops inp <= x -> dgroup_of inp x = None.
+Proof.
+  intros (_ & _ & _ & Hg) Hx. unfold dgroup_of. exact (dgroup_find_not_input _ x _ Hg Hx 0).
+Qed.
+
+Lemma stop_duration_at_not_input (inp : input) (p x : nat) :
+  wf_input inp -> nstops inp <= x -> stop_duration_at inp p x = 0%Z.
+Proof.
+  intros Hwf Hx. unfold stop_duration_at, dgroup_extra, stop_duration.
+  rewrite (dgroup_of_not_input inp x Hwf Hx).
+  replace (is_input_stop inp x) with false by (symmetry; apply Nat.ltb_ge; exact Hx).
+  destruct (o_dis_durations (in_opts inp)), (o_dis_dgroups (in_opts inp)); reflexivity.
 Qed.
 
 (* ================================================================== *)
@@ -1255,7 +1285,7 @@ Qed.
 (* ================================================================== *)
 
 Definition ex_opts : options :=
-  mkOptions false false false false false false false false false false false 0%Z 1%Z 0%Z 1%Z.
+  mkOptions false false false false false false false false false false false 0%Z 1%Z 0%Z 1%Z false.
 Definition ex_mat : list (list Z) :=
   [[0;60;60;60];[60;0;60;60];[60;60;0;60];[60;60;60;0]]%Z.
 (* 2 stops (each picks up 1, stop 0 has a time window), 1 vehicle of capacity 1,
@@ -1265,7 +1295,7 @@ Definition ex_inp : input :=
            mkIStop [(-1)%Z] 10%Z [] None 100%Z []]
           [mkIVehicle (Some [1%Z]) [0%Z] 0%Z None None None None None [] 0%Z true true]
           [mkIUnit [0] []; mkIUnit [1] []]
-          ex_mat ex_mat 1 ex_opts.
+          ex_mat ex_mat 1 ex_opts [].
 Definition ex_dummy : state := mkState [] [] [] [] [] 0%Z.
 Definition ex_s0 : state :=
   Eval vm_compute in match new_solution ex_inp with Some s => s | None => ex_dummy end.
@@ -1275,7 +1305,7 @@ Definition ex_s1 : state := Eval vm_compute in fst (exec_move ex_inp ex_s0 ex_mv
 
 Example ex_wf : wf_input ex_inp.
 Proof.
-  split; [|split].
+  split; [|split; [|split; [|exact (Forall_nil _)]]].
   - vm_compute. constructor; [simpl; lia|]. constructor; [simpl; tauto|constructor].
   - intros x. vm_compute. lia.
   - intros u Hu. vm_compute in Hu. destruct Hu as [<-|[<-|[]]]; discriminate.
@@ -1333,7 +1363,7 @@ Definition cx_inp : input :=
   mkInput [] [mkIStop [] 0%Z [] None 0%Z []; mkIStop [] 0%Z [] None 0%Z []]
           [dflt_vehicle; dflt_vehicle]
           [mkIUnit [0; 1] []]
-          [] [] 0 ex_opts.
+          [] [] 0 ex_opts [].
 Definition cx_s : state :=
   Eval vm_compute in
   refresh_scores cx_inp
@@ -1342,7 +1372,7 @@ Definition cx_s' : state := Eval vm_compute in fst (unplan_unit cx_inp cx_s 0).
 
 Lemma cx_wf : wf_input cx_inp.
 Proof.
-  split; [|split].
+  split; [|split; [|split; [|exact (Forall_nil _)]]].
   - vm_compute. constructor; [simpl; lia|]. constructor; [simpl; tauto|constructor].
   - intros x. vm_compute. lia.
   - intros u Hu. vm_compute in Hu. destruct Hu as [<-|[]]; discriminate.
